@@ -246,6 +246,9 @@ func CheckFields(input PDU) error { // nolint: gocyclo
 	}
 
 	// Compatibility to Synapse and older rooms. This was always enforced by Synapse
+	// Hard limits first (code points): exceeding any of them makes the event unusable, whatever
+	// else is wrong with it. The byte limits, which older servers did not enforce, come afterwards
+	// and only make the event "too large but persistable".
 	if l := utf8.RuneCountInString(input.Type()); l > maxIDLength {
 		return EventValidationError{
 			Code:    EventValidationTooLarge,
@@ -262,9 +265,27 @@ func CheckFields(input PDU) error { // nolint: gocyclo
 		}
 	}
 
+	if l := utf8.RuneCountInString(string(input.SenderID())); l > maxIDLength {
+		return EventValidationError{
+			Code:    EventValidationTooLarge,
+			Message: fmt.Sprintf("gomatrixserverlib: sender is too long, length %d > maximum %d", l, maxIDLength),
+		}
+	}
+
+	switch input.Version() {
+	case RoomVersionPseudoIDs:
+	default:
+		// the sender must be a well-formed user ID (its own length checks come last, below)
+		if _, err := domainFromID(string(input.SenderID())); err != nil {
+			return err
+		}
+		if id := string(input.SenderID()); id[0] != '@' {
+			return checkID(id, "user", '@')
+		}
+	}
+
 	_, persistable := lenientByteLimitRoomVersions[input.Version()]
 
-	// Byte size check: if these fail, then be lenient to avoid breaking rooms.
 	if l := len(input.Type()); l > maxIDLength {
 		return EventValidationError{
 			Code:        EventValidationTooLarge,
@@ -283,11 +304,11 @@ func CheckFields(input PDU) error { // nolint: gocyclo
 		}
 	}
 
-	switch input.Version() {
-	case RoomVersionPseudoIDs:
-	default:
-		if err := checkID(string(input.SenderID()), "user", '@'); err != nil {
-			return err
+	if l := len(input.SenderID()); l > maxIDLength {
+		return EventValidationError{
+			Code:        EventValidationTooLarge,
+			Message:     fmt.Sprintf("gomatrixserverlib: user ID is too long, length %d bytes > maximum %d bytes", l, maxIDLength),
+			Persistable: true,
 		}
 	}
 
